@@ -116,7 +116,7 @@ theorem exec_kall (wf : TxnWF t) {s : Store} (h : KAll t s) {rpc : Rpc} (hr : rp
   · simp only [execRpc]; exact prewrite_kall wf ms s h hsub
   · simp only [execRpc]; exact commit_kall wf c.perc ks s h hsub
 
-theorem PInv.preserved (wf : TxnWF t) {y : Sys} (h : PInv t y) (op : Op) : PInv t (step c t y op) := by
+theorem PInv.preserved (wf : TxnWF t) {y : Sys} (h : PInv t y) (op : Op) (hd : op.Distinct t) : PInv t (step c t y op) := by
   cases op with
   | deliver =>
     simp only [step]
@@ -195,46 +195,22 @@ theorem PInv.preserved (wf : TxnWF t) {y : Sys} (h : PInv t y) (op : Op) : PInv 
     · exact ⟨resolve_kall wf 0 (Or.inl rfl) _ _ h.k hown, h.lc⟩
     · exact h
 
-  | foreign k fts ttl v =>
+  | other r =>
     simp only [step]
     refine ⟨?_, h.lc⟩
-    show KAll t (foreignPrewrite t y.store k fts ttl v)
-    unfold foreignPrewrite
-    split
-    · exact h.k
-    · rename_i hne
-      split
-      · rename_i hany
-        simp only [List.any_eq_true, decide_eq_true_eq] at hany
-        obtain ⟨m, hm, rfl⟩ := hany
-        split
-        · rename_i hok
-          exact h.k.set wf hm (foreignKey_kstep hne hok)
-        · exact h.k
-      · exact h.k
+    show KAll t (y.store.set r.key (r.apply c.perc (y.store r.key)))
+    by_cases hk : ∃ m ∈ t.muts, m.key = r.key
+    · obtain ⟨m, hm, e⟩ := hk
+      rw [← e]
+      exact h.k.set wf hm (KStep.other _ (other_apply c.perc (h.k m hm) r hd))
+    · intro m hm
+      rw [Store.set_other _ _ (fun e => hk ⟨m, hm, e⟩)]
+      exact h.k m hm
 
-  | foreignAbort k fts =>
-    simp only [step]
-    refine ⟨?_, h.lc⟩
-    show KAll t (foreignAbort t y.store k fts)
-    unfold foreignAbort
-    split
-    · exact h.k
-    · rename_i h1
-      split
-      · exact h.k
-      · rename_i h2
-        split
-        · rename_i hany
-          simp only [List.any_eq_true, decide_eq_true_eq] at hany
-          obtain ⟨m, hm, rfl⟩ := hany
-          exact h.k.set wf hm (foreignAbort_kstep (t := t) y.store (m := m) fts h1 h2).1
-        · exact h.k
-
-theorem PInv.run_inv (wf : TxnWF t) : ∀ (ops : List Op) {y : Sys}, PInv t y → PInv t (run c t y ops)
-  | [], _, h => h
-  | op :: ops, _, h => by
+theorem PInv.run_inv (wf : TxnWF t) : ∀ (ops : List Op) {y : Sys}, (∀ op ∈ ops, op.Distinct t) → PInv t y → PInv t (run c t y ops)
+  | [], _, _, h => h
+  | op :: ops, _, hd, h => by
     simp only [run, List.foldl_cons]
-    exact PInv.run_inv wf ops (h.preserved wf op)
+    exact PInv.run_inv wf ops (fun o ho => hd o (List.mem_cons_of_mem _ ho)) (h.preserved wf op (hd op (List.mem_cons_self ..)))
 
 end NoKV.Client
